@@ -1154,6 +1154,21 @@ func matrix() []Scenario {
 				}
 			}
 		}
+		// the limit a client has by default (about 2 MB), with payloads near it: what the client's size
+		// filter lets through must also get through the wire
+		if D := int(getPair().defaultLimit); D > 4096 && backing == "dadbl" {
+			q := D / 4
+			small := make([]int, 1100)
+			for i := range small {
+				small[i] = D / 1000
+			}
+			for _, sz := range [][]int{{D / 2}, {D * 9 / 10}, {D}, {D - 1, 1}, {q, q, q, D - 3*q}, {q, q, q, q, q}, small, {D + 1}} {
+				for _, bm := range []string{"equal", "unlimited"} {
+					out = append(out, Scenario{Backing: backing, Limit: uint64(D), BackMode: bm, Ops: []Op{
+						{Kind: "submit", Sizes: sz}, adv, {Kind: "retrieve", HKind: "populated", HIdx: 0}}})
+				}
+			}
+		}
 		// heights: nothing there / future / far future, with the LocalDA shape of "nothing there"
 		for _, nilOnEmpty := range []bool{false, true} {
 			for _, hk := range []string{"zero", "below", "head", "future", "huge"} {
